@@ -146,7 +146,7 @@ CLAIMED = {
          'Theorems for every string: decode(encode s) = norm s; the encoded form is in the escaped-token language (no raw LF, '
          'no unescaped ; or ,); CATEGORIES join/split is item-wise lossless. The replace chain and the decoder class are '
          'regenerated from parser.py on every run, so the proofs are re-checked against the current source; vText/vCategory '
-         'glue and the property route are tied by exhaustive short-string and random correspondence.',
+         'glue and the property route are tied by exhaustive short-string and random correspondence. Clause pass (round 10): escape_delims_escaped (every ; and , of the encoded form stands after an odd run of backslashes), escape_no_crlf_bare_cr_kept, escape_injective_iff (encoder injective exactly up to norm), norm_idem_partial / norm_idem_full_false / second_roundtrip_witness (the normalisation is not a projection: CR CR LF), categories_roundtrip_iff / categories_empty_witness (fails exactly at the empty list).',
          'split_on_unescaped_comma is regenerated from the source by tools/py2lean.py and proved equal to the hand model (body_split_on_unescaped_comma). '
          'Trusted: Lean kernel; tools/extract.py + tools/py2lean.py with Model/PyRT*.lean (run against CPython every check); the hand-written single-pass scanner and split_on_unescaped_comma models '
          '(tied by correspondence on all strings <= 4 over the 14-character critical alphabet); UTF-8 only.',
@@ -158,7 +158,7 @@ CLAIMED = {
          'UTF-8 encoding distributes over the cuts; lines_roundtrip: unfolding and splitting the CRLF-joined folded lines of a component returns exactly its content lines. limit, separator and slice width are regenerated from parser.py each '
          'run; the theorem is generic in any limit >= 5, so benign retuning keeps the proof. Both foldline paths, the '
          'unfold scanner and the newline splitter are tied to the code by correspondence (every length 0..240/400 x '
-         'widths 1..4, every boundary alignment, all strings <= 6 over {CR LF SP HT a} against Python re).',
+         'widths 1..4, every boundary alignment, all strings <= 6 over {CR LF SP HT a} against Python re). Clause pass (round 10): fold_short_identity (lines of at most 74 octets are not folded), fold_75_is_folded, fold_adds_exactly (exactly CR LF SP per fold), unfold_keeps_own_space, lines_bytes and component_bytes (every physical line of Contentlines.to_ical and of Component.to_ical of any tree, either sorted flag, has at most 75 octets and is UTF-8 of whole characters).',
          'foldline (both paths) is regenerated from the source by tools/py2lean.py and proved equal to the hand model for every limit >= 2 (body_foldline_with, body_foldline). '
          'Trusted: Lean kernel; tools/extract.py + tools/py2lean.py with Model/PyRT*.lean (run against CPython every check); hand models of foldline (both paths), uFOLD.sub and NEWLINE.split tied '
          'by correspondence; Char.utf8Size as the octet count; python -O (assert stripped) not modelled; '
@@ -187,7 +187,7 @@ CLAIMED = {
          'q_split inverts any quote-balanced join. QUOTABLE/UNSAFE/QUNSAFE classes and the dquote substitution are '
          'regenerated from parser.py every run. The in-line and on-a-component routes are tied by correspondence and '
          'decided by the oracle; there the recorded finding param-escape-hazard (backslash before , : ; \\ and literal '
-         '%2C-style codes in parameter values) applies.',
+         '%2C-style codes in parameter values) applies. Clause pass (round 10): params_no_bare_colon (no colon outside double quotes in the whole parameter text, for every value), params_roundtrip_unsorted (insertion order kept with sorted=False), params_name_case_write / params_name_case_read, one_element_list_same_text, comma_string_stays_single.',
          'dquote, q_join, q_split are regenerated from the source by tools/py2lean.py and proved equal to the hand models (body_dquote, body_q_join, body_q_split). '
          'Trusted: Lean kernel; tools/extract.py + tools/py2lean.py with Model/PyRT*.lean (run against CPython every check); hand models of q_split, dquote, Parameters.from_ical/to_ical tied by '
          'correspondence (all strings <= 5 over {" , ; = a}, all values <= 3 over a 14-character alphabet); ASCII names '
@@ -228,7 +228,7 @@ CLAIMED = {
          'transitive, invariant under permutation of subcomponents and of property insertion order, and false whenever '
          'the kind, a property value, the number or the multiset of subcomponents differs (eq_multiset: equality iff '
          'names equal, property maps equal and the subcomponent lists match one-to-one). Non-components, key case and '
-         'copy mechanics (deepcopy, pickle, reparse) are decided by the oracle on the implementation.',
+         'copy mechanics (deepcopy, pickle, reparse) are decided by the oracle on the implementation. Clause pass (round 10): eq_congr_perm (congruence under permutation, giving order-insensitivity at every depth level by level), eq_perm_depth2.',
          'Component._walk/walk are regenerated from the source by tools/py2lean.py and proved equal to the hand model (body_walk). '
          'Trusted: Lean kernel; hand models of _walk and __eq__ tied by correspondence (generated trees, permutations, '
          'perturbations, both providers); value equality instantiated structurally in the driver and validated by '
@@ -239,7 +239,7 @@ CLAIMED = {
          'property of every nested component (every element of a multi-valued parameter); missing = used minus the '
          'VTIMEZONE names present, total (never an error); after add-missing every used, known, previously absent id '
          'has exactly one VTIMEZONE, present ones are untouched, unknown ids stay missing, the used set is unchanged, and '
-         'a second call changes nothing. Provider knowledge is an abstract predicate.',
+         'a second call changes nothing. Provider knowledge is an abstract predicate. Clause pass (round 10): add_missing_repeat (any number n+1 of calls = one call), unknown_stay_missing (after any number of calls), add_missing_repeat_closes.',
          'Calendar.timezones, get_used_tzids, get_missing_tzids, add_missing_timezones are regenerated from the source by tools/py2lean.py (Python sets as duplicate-free lists, compared sorted) and proved equal to the hand model (body_timezones, body_get_used_tzids, body_get_missing_tzids, body_add_missing_timezones). '
          'Trusted: Lean kernel; hand models of get_used_tzids / get_missing_tzids / add_missing_timezones tied by '
          'correspondence (calendars with used, unused, unknown, duplicate and TZID-less VTIMEZONEs, repeated calls); the '
@@ -276,7 +276,7 @@ CLAIMED = {
          'nothing acknowledged, or snoozed past the acknowledgement, or trigger later than it; a snooze later than the '
          'trigger moves the reported trigger; the active list is a sublist of all times; a later acknowledgement never '
          'activates an alarm (alarm-level and component-level); the only error is LocalTimezoneMissing and only for '
-         'floating/date triggers without a local time zone; DTSTAMP vs X-MOZ-LASTACK/SNOOZE wiring.',
+         'floating/date triggers without a local time zone; DTSTAMP vs X-MOZ-LASTACK/SNOOZE wiring. Clause pass (round 10): active_decision_table (is_active as one total function of the four optional instants for an aware trigger), active_equalities (boundary rows), ack_monotone_both (both acknowledgements move later), snooze_reported (reported trigger = later of trigger and snooze).',
          'AlarmTime.acknowledged/trigger/is_active and Alarms.active are regenerated from the source by tools/py2lean.py and proved equal to the hand model (body_alarmtime_*). '
          'Trusted: Lean kernel; hand model of AlarmTime/Alarms tied by correspondence (every ordering-with-ties of '
          'trigger, alarm ack, component ack, snooze, each possibly absent x trigger kind x local tz x Thunderbird, API '
